@@ -4,11 +4,11 @@
 // over the same 7-table pool, oracle walker, shapes and dictated post-state as the
 // MappedPageTable steps (c01_pool.rs, c01_step_*.rs; read their headers first).
 //
-// How the recursive addresses get a target: `#[kani::stub(VirtAddr::as_mut_ptr, mmu_as_mut_ptr)]`.
+// How the recursive addresses get a target: `#[kani::stub(VirtAddr::as_mut_ptr, mmu_trap_as_mut_ptr)]`.
 // In recursive_page_table.rs `as_mut_ptr` is called at exactly four places, all of the form
 // `<recursive page>.start_address().as_mut_ptr()`; the stub resolves the address with a SOFTWARE
 // MMU: the hardware-style walk `hw_walk` from CR3 = pool frame 0, whose result must be a page
-// table of the pool (else: NULL pointer + `ghost().outside`, i.e. a page fault or an access to a
+// table of the pool (else: the TRAP TABLE + `ghost().outside`, i.e. a page fault or an access to a
 // frame that is not a page table - the C09 trap). Level-4 slot R = 300 holds the recursive entry
 // `frame 0 | PRESENT | WRITABLE`. So the mapper's own accesses go through the same raw-memory
 // semantics the oracle uses, and a walk that the mapper takes through a huge parent ends in a data
@@ -40,6 +40,38 @@ mod verif_c01_recursive_step {
         v
     }
 
+    // ---- the trap table (same device as in c01_recursive_step_huge.rs, see the comment there):
+    // an address that does not resolve to a page table is answered with an eighth table object
+    // standing for "the data frame / whatever the address reached" (symbolic words at the slots of
+    // the index tuple, zero elsewhere) instead of NULL. With NULL Kani cuts the path at its unnamed
+    // check "null reference produced", and the NAMED clauses are reached only on the paths where
+    // the huge leaf's data frame happens to alias a page table of the pool.
+    static mut TRAP_TABLE: *mut PageTable = core::ptr::null_mut();
+
+    fn install_trap(t: *mut PageTable, ix: &Idx) {
+        let mut l = 0;
+        while l < 4 {
+            unsafe { (&mut *t)[ix.0[l]] = entry_from(kani::any()) };
+            l += 1;
+        }
+        unsafe { TRAP_TABLE = t };
+    }
+    macro_rules! mk_trap {
+        ($ix:expr) => {
+            let mut trap_table = PageTable::new();
+            install_trap(&mut trap_table as *mut PageTable, $ix);
+        };
+    }
+    /// stub of `VirtAddr::as_mut_ptr` in every harness of this file
+    fn mmu_trap_as_mut_ptr<T>(this: VirtAddr) -> *mut T {
+        let p = mmu_resolve(this.as_u64());
+        if p.is_null() {
+            (unsafe { TRAP_TABLE }) as *mut T
+        } else {
+            p as *mut T
+        }
+    }
+
     const E_NOT_MAPPED: u8 = 1;
     const E_PARENT_HUGE: u8 = 2;
     fn model_outcome(sh: Shape, pre: &Pre, l: usize) -> u8 {
@@ -65,6 +97,7 @@ mod verif_c01_recursive_step {
             let sh: Shape = $SH;
             mk_pool!(pool);
             install_recursive_entry(&pool);
+            mk_trap!(&ix);
             let pre = build_path(&pool, &ix, sh);
             add_background(&pool, &ix);
             add_garbage(&pool, &ix);
@@ -164,6 +197,7 @@ mod verif_c01_recursive_step {
             let sh: Shape = $SH;
             mk_pool!(pool);
             install_recursive_entry(&pool);
+            mk_trap!(&ix);
             let pre = build_path(&pool, &ix, sh);
             add_background(&pool, &ix);
             let page: Page<Size4KiB> = page_of::<Size4KiB>(&ix);
@@ -235,7 +269,9 @@ mod verif_c01_recursive_step {
             let c_frame = bogus || dict.agrees(fk, fs, f_pre, f_post);
             let g = ghost();
             let c_noalloc = g.seq == 0 && g.zero_elsewhere == 0;
-            let c_outside = bogus || g.outside == 0;
+            // NOT masked by `bogus`: walking through a huge leaf into its data frame is also an
+            // access outside the page tables (C09), whatever C02 says about the answer.
+            let c_outside = g.outside == 0;
             each! {
                 c_hp => ob!("C02", $op, $shape, "huge_parent_is_reported_not_walked: the page lies inside a larger huge page; the call must answer ParentEntryHugePage (as MappedPageTable does) instead of using the huge page's data frame as a page table"),
                 outcome_ok => ob!("C02", $op, $shape, "documented_outcome: Ok for a mapped 4 KiB page, PageNotMapped iff an entry on the path is absent, ParentEntryHugePage iff the page lies inside a larger huge page (identically to MappedPageTable)"),
@@ -261,6 +297,7 @@ mod verif_c01_recursive_step {
             let sh: Shape = $SH;
             mk_pool!(pool);
             install_recursive_entry(&pool);
+            mk_trap!(&ix);
             let _pre = build_path(&pool, &ix, sh);
             add_background(&pool, &ix);
             // every address of the mapped page: the indices below a huge leaf are symbolic too
@@ -312,7 +349,7 @@ mod verif_c01_recursive_step {
     //@ obligation C09 C09.recursive_map_to_4kib.shape_p4_absent.no_access_outside_page_tables bounded="pool of 7 tables (4 path + 3 allocatable); tree-shaped sparse pre-state (target path, one neighbour word per path table, garbage in allocatable frames); recursive index 300; page-table indices (255,511,0,256)"
     #[kani::proof]
     #[kani::stub(crate::structures::paging::page_table::PageTable::zero, zero_stub)]
-    #[kani::stub(crate::addr::VirtAddr::as_mut_ptr, mmu_as_mut_ptr)]
+    #[kani::stub(crate::addr::VirtAddr::as_mut_ptr, mmu_trap_as_mut_ptr)]
     fn c01_recursive_map_to_p4_absent_mid() {
         rec_map_to_step!("p4_absent", P4_ABSENT, IDX_MID);
         kani::cover!(true, "c01_recursive_map_to_p4_absent_mid: reachable");
@@ -336,7 +373,7 @@ mod verif_c01_recursive_step {
     //@ obligation C09 C09.recursive_map_to_4kib.shape_p4_absent.no_access_outside_page_tables tier=thorough bounded="pool of 7 tables (4 path + 3 allocatable); tree-shaped sparse pre-state (target path, one neighbour word per path table, garbage in allocatable frames); recursive index 300; page-table indices (256,0,510,511)"
     #[kani::proof]
     #[kani::stub(crate::structures::paging::page_table::PageTable::zero, zero_stub)]
-    #[kani::stub(crate::addr::VirtAddr::as_mut_ptr, mmu_as_mut_ptr)]
+    #[kani::stub(crate::addr::VirtAddr::as_mut_ptr, mmu_trap_as_mut_ptr)]
     fn c01_recursive_map_to_p4_absent_up() {
         rec_map_to_step!("p4_absent", P4_ABSENT, IDX_UP);
         kani::cover!(true, "c01_recursive_map_to_p4_absent_up: reachable");
@@ -360,7 +397,7 @@ mod verif_c01_recursive_step {
     //@ obligation C09 C09.recursive_map_to_4kib.shape_p3_absent.no_access_outside_page_tables tier=thorough bounded="pool of 7 tables (4 path + 3 allocatable); tree-shaped sparse pre-state (target path, one neighbour word per path table, garbage in allocatable frames); recursive index 300; page-table indices (255,511,0,256)"
     #[kani::proof]
     #[kani::stub(crate::structures::paging::page_table::PageTable::zero, zero_stub)]
-    #[kani::stub(crate::addr::VirtAddr::as_mut_ptr, mmu_as_mut_ptr)]
+    #[kani::stub(crate::addr::VirtAddr::as_mut_ptr, mmu_trap_as_mut_ptr)]
     fn c01_recursive_map_to_p3_absent_mid() {
         rec_map_to_step!("p3_absent", P3_ABSENT, IDX_MID);
         kani::cover!(true, "c01_recursive_map_to_p3_absent_mid: reachable");
@@ -384,7 +421,7 @@ mod verif_c01_recursive_step {
     //@ obligation C09 C09.recursive_map_to_4kib.shape_p3_absent.no_access_outside_page_tables tier=thorough bounded="pool of 7 tables (4 path + 3 allocatable); tree-shaped sparse pre-state (target path, one neighbour word per path table, garbage in allocatable frames); recursive index 300; page-table indices (256,0,510,511)"
     #[kani::proof]
     #[kani::stub(crate::structures::paging::page_table::PageTable::zero, zero_stub)]
-    #[kani::stub(crate::addr::VirtAddr::as_mut_ptr, mmu_as_mut_ptr)]
+    #[kani::stub(crate::addr::VirtAddr::as_mut_ptr, mmu_trap_as_mut_ptr)]
     fn c01_recursive_map_to_p3_absent_up() {
         rec_map_to_step!("p3_absent", P3_ABSENT, IDX_UP);
         kani::cover!(true, "c01_recursive_map_to_p3_absent_up: reachable");
@@ -408,7 +445,7 @@ mod verif_c01_recursive_step {
     //@ obligation C09 C09.recursive_map_to_4kib.shape_p3_huge.no_access_outside_page_tables tier=thorough bounded="pool of 7 tables (4 path + 3 allocatable); tree-shaped sparse pre-state (target path, one neighbour word per path table, garbage in allocatable frames); recursive index 300; page-table indices (255,511,0,256)"
     #[kani::proof]
     #[kani::stub(crate::structures::paging::page_table::PageTable::zero, zero_stub)]
-    #[kani::stub(crate::addr::VirtAddr::as_mut_ptr, mmu_as_mut_ptr)]
+    #[kani::stub(crate::addr::VirtAddr::as_mut_ptr, mmu_trap_as_mut_ptr)]
     fn c01_recursive_map_to_p3_huge_mid() {
         rec_map_to_step!("p3_huge", P3_HUGE, IDX_MID);
         kani::cover!(true, "c01_recursive_map_to_p3_huge_mid: reachable");
@@ -432,7 +469,7 @@ mod verif_c01_recursive_step {
     //@ obligation C09 C09.recursive_map_to_4kib.shape_p3_huge.no_access_outside_page_tables tier=thorough bounded="pool of 7 tables (4 path + 3 allocatable); tree-shaped sparse pre-state (target path, one neighbour word per path table, garbage in allocatable frames); recursive index 300; page-table indices (256,0,510,511)"
     #[kani::proof]
     #[kani::stub(crate::structures::paging::page_table::PageTable::zero, zero_stub)]
-    #[kani::stub(crate::addr::VirtAddr::as_mut_ptr, mmu_as_mut_ptr)]
+    #[kani::stub(crate::addr::VirtAddr::as_mut_ptr, mmu_trap_as_mut_ptr)]
     fn c01_recursive_map_to_p3_huge_up() {
         rec_map_to_step!("p3_huge", P3_HUGE, IDX_UP);
         kani::cover!(true, "c01_recursive_map_to_p3_huge_up: reachable");
@@ -456,7 +493,7 @@ mod verif_c01_recursive_step {
     //@ obligation C09 C09.recursive_map_to_4kib.shape_p2_absent.no_access_outside_page_tables tier=thorough bounded="pool of 7 tables (4 path + 3 allocatable); tree-shaped sparse pre-state (target path, one neighbour word per path table, garbage in allocatable frames); recursive index 300; page-table indices (255,511,0,256)"
     #[kani::proof]
     #[kani::stub(crate::structures::paging::page_table::PageTable::zero, zero_stub)]
-    #[kani::stub(crate::addr::VirtAddr::as_mut_ptr, mmu_as_mut_ptr)]
+    #[kani::stub(crate::addr::VirtAddr::as_mut_ptr, mmu_trap_as_mut_ptr)]
     fn c01_recursive_map_to_p2_absent_mid() {
         rec_map_to_step!("p2_absent", P2_ABSENT, IDX_MID);
         kani::cover!(true, "c01_recursive_map_to_p2_absent_mid: reachable");
@@ -480,7 +517,7 @@ mod verif_c01_recursive_step {
     //@ obligation C09 C09.recursive_map_to_4kib.shape_p2_absent.no_access_outside_page_tables tier=thorough bounded="pool of 7 tables (4 path + 3 allocatable); tree-shaped sparse pre-state (target path, one neighbour word per path table, garbage in allocatable frames); recursive index 300; page-table indices (256,0,510,511)"
     #[kani::proof]
     #[kani::stub(crate::structures::paging::page_table::PageTable::zero, zero_stub)]
-    #[kani::stub(crate::addr::VirtAddr::as_mut_ptr, mmu_as_mut_ptr)]
+    #[kani::stub(crate::addr::VirtAddr::as_mut_ptr, mmu_trap_as_mut_ptr)]
     fn c01_recursive_map_to_p2_absent_up() {
         rec_map_to_step!("p2_absent", P2_ABSENT, IDX_UP);
         kani::cover!(true, "c01_recursive_map_to_p2_absent_up: reachable");
@@ -504,7 +541,7 @@ mod verif_c01_recursive_step {
     //@ obligation C09 C09.recursive_map_to_4kib.shape_p2_huge.no_access_outside_page_tables tier=thorough bounded="pool of 7 tables (4 path + 3 allocatable); tree-shaped sparse pre-state (target path, one neighbour word per path table, garbage in allocatable frames); recursive index 300; page-table indices (255,511,0,256)"
     #[kani::proof]
     #[kani::stub(crate::structures::paging::page_table::PageTable::zero, zero_stub)]
-    #[kani::stub(crate::addr::VirtAddr::as_mut_ptr, mmu_as_mut_ptr)]
+    #[kani::stub(crate::addr::VirtAddr::as_mut_ptr, mmu_trap_as_mut_ptr)]
     fn c01_recursive_map_to_p2_huge_mid() {
         rec_map_to_step!("p2_huge", P2_HUGE, IDX_MID);
         kani::cover!(true, "c01_recursive_map_to_p2_huge_mid: reachable");
@@ -528,7 +565,7 @@ mod verif_c01_recursive_step {
     //@ obligation C09 C09.recursive_map_to_4kib.shape_p2_huge.no_access_outside_page_tables tier=thorough bounded="pool of 7 tables (4 path + 3 allocatable); tree-shaped sparse pre-state (target path, one neighbour word per path table, garbage in allocatable frames); recursive index 300; page-table indices (256,0,510,511)"
     #[kani::proof]
     #[kani::stub(crate::structures::paging::page_table::PageTable::zero, zero_stub)]
-    #[kani::stub(crate::addr::VirtAddr::as_mut_ptr, mmu_as_mut_ptr)]
+    #[kani::stub(crate::addr::VirtAddr::as_mut_ptr, mmu_trap_as_mut_ptr)]
     fn c01_recursive_map_to_p2_huge_up() {
         rec_map_to_step!("p2_huge", P2_HUGE, IDX_UP);
         kani::cover!(true, "c01_recursive_map_to_p2_huge_up: reachable");
@@ -552,7 +589,7 @@ mod verif_c01_recursive_step {
     //@ obligation C09 C09.recursive_map_to_4kib.shape_p1_absent.no_access_outside_page_tables tier=thorough bounded="pool of 7 tables (4 path + 3 allocatable); tree-shaped sparse pre-state (target path, one neighbour word per path table, garbage in allocatable frames); recursive index 300; page-table indices (255,511,0,256)"
     #[kani::proof]
     #[kani::stub(crate::structures::paging::page_table::PageTable::zero, zero_stub)]
-    #[kani::stub(crate::addr::VirtAddr::as_mut_ptr, mmu_as_mut_ptr)]
+    #[kani::stub(crate::addr::VirtAddr::as_mut_ptr, mmu_trap_as_mut_ptr)]
     fn c01_recursive_map_to_p1_absent_mid() {
         rec_map_to_step!("p1_absent", P1_ABSENT, IDX_MID);
         kani::cover!(true, "c01_recursive_map_to_p1_absent_mid: reachable");
@@ -576,7 +613,7 @@ mod verif_c01_recursive_step {
     //@ obligation C09 C09.recursive_map_to_4kib.shape_p1_absent.no_access_outside_page_tables tier=thorough bounded="pool of 7 tables (4 path + 3 allocatable); tree-shaped sparse pre-state (target path, one neighbour word per path table, garbage in allocatable frames); recursive index 300; page-table indices (256,0,510,511)"
     #[kani::proof]
     #[kani::stub(crate::structures::paging::page_table::PageTable::zero, zero_stub)]
-    #[kani::stub(crate::addr::VirtAddr::as_mut_ptr, mmu_as_mut_ptr)]
+    #[kani::stub(crate::addr::VirtAddr::as_mut_ptr, mmu_trap_as_mut_ptr)]
     fn c01_recursive_map_to_p1_absent_up() {
         rec_map_to_step!("p1_absent", P1_ABSENT, IDX_UP);
         kani::cover!(true, "c01_recursive_map_to_p1_absent_up: reachable");
@@ -600,7 +637,7 @@ mod verif_c01_recursive_step {
     //@ obligation C09 C09.recursive_map_to_4kib.shape_p1_leaf.no_access_outside_page_tables tier=thorough bounded="pool of 7 tables (4 path + 3 allocatable); tree-shaped sparse pre-state (target path, one neighbour word per path table, garbage in allocatable frames); recursive index 300; page-table indices (255,511,0,256)"
     #[kani::proof]
     #[kani::stub(crate::structures::paging::page_table::PageTable::zero, zero_stub)]
-    #[kani::stub(crate::addr::VirtAddr::as_mut_ptr, mmu_as_mut_ptr)]
+    #[kani::stub(crate::addr::VirtAddr::as_mut_ptr, mmu_trap_as_mut_ptr)]
     fn c01_recursive_map_to_p1_leaf_mid() {
         rec_map_to_step!("p1_leaf", P1_LEAF, IDX_MID);
         kani::cover!(true, "c01_recursive_map_to_p1_leaf_mid: reachable");
@@ -624,7 +661,7 @@ mod verif_c01_recursive_step {
     //@ obligation C09 C09.recursive_map_to_4kib.shape_p1_leaf.no_access_outside_page_tables tier=thorough bounded="pool of 7 tables (4 path + 3 allocatable); tree-shaped sparse pre-state (target path, one neighbour word per path table, garbage in allocatable frames); recursive index 300; page-table indices (256,0,510,511)"
     #[kani::proof]
     #[kani::stub(crate::structures::paging::page_table::PageTable::zero, zero_stub)]
-    #[kani::stub(crate::addr::VirtAddr::as_mut_ptr, mmu_as_mut_ptr)]
+    #[kani::stub(crate::addr::VirtAddr::as_mut_ptr, mmu_trap_as_mut_ptr)]
     fn c01_recursive_map_to_p1_leaf_up() {
         rec_map_to_step!("p1_leaf", P1_LEAF, IDX_UP);
         kani::cover!(true, "c01_recursive_map_to_p1_leaf_up: reachable");
@@ -643,7 +680,7 @@ mod verif_c01_recursive_step {
     //@ obligation C09 C09.recursive_unmap_4kib.shape_p4_absent.no_access_outside_page_tables tier=thorough bounded="pool of 7 tables (4 path + 3 allocatable); tree-shaped sparse pre-state (target path, one neighbour word per path table, garbage in allocatable frames); recursive index 300; page-table indices (255,511,0,256)"
     #[kani::proof]
     #[kani::stub(crate::structures::paging::page_table::PageTable::zero, zero_stub)]
-    #[kani::stub(crate::addr::VirtAddr::as_mut_ptr, mmu_as_mut_ptr)]
+    #[kani::stub(crate::addr::VirtAddr::as_mut_ptr, mmu_trap_as_mut_ptr)]
     fn c01_recursive_unmap_p4_absent_mid() {
         rec_leaf_op_step!("unmap", 0, "p4_absent", P4_ABSENT, IDX_MID);
         kani::cover!(true, "c01_recursive_unmap_p4_absent_mid: reachable");
@@ -662,7 +699,7 @@ mod verif_c01_recursive_step {
     //@ obligation C09 C09.recursive_unmap_4kib.shape_p4_absent.no_access_outside_page_tables tier=thorough bounded="pool of 7 tables (4 path + 3 allocatable); tree-shaped sparse pre-state (target path, one neighbour word per path table, garbage in allocatable frames); recursive index 300; page-table indices (256,0,510,511)"
     #[kani::proof]
     #[kani::stub(crate::structures::paging::page_table::PageTable::zero, zero_stub)]
-    #[kani::stub(crate::addr::VirtAddr::as_mut_ptr, mmu_as_mut_ptr)]
+    #[kani::stub(crate::addr::VirtAddr::as_mut_ptr, mmu_trap_as_mut_ptr)]
     fn c01_recursive_unmap_p4_absent_up() {
         rec_leaf_op_step!("unmap", 0, "p4_absent", P4_ABSENT, IDX_UP);
         kani::cover!(true, "c01_recursive_unmap_p4_absent_up: reachable");
@@ -681,7 +718,7 @@ mod verif_c01_recursive_step {
     //@ obligation C09 C09.recursive_unmap_4kib.shape_p3_absent.no_access_outside_page_tables tier=thorough bounded="pool of 7 tables (4 path + 3 allocatable); tree-shaped sparse pre-state (target path, one neighbour word per path table, garbage in allocatable frames); recursive index 300; page-table indices (255,511,0,256)"
     #[kani::proof]
     #[kani::stub(crate::structures::paging::page_table::PageTable::zero, zero_stub)]
-    #[kani::stub(crate::addr::VirtAddr::as_mut_ptr, mmu_as_mut_ptr)]
+    #[kani::stub(crate::addr::VirtAddr::as_mut_ptr, mmu_trap_as_mut_ptr)]
     fn c01_recursive_unmap_p3_absent_mid() {
         rec_leaf_op_step!("unmap", 0, "p3_absent", P3_ABSENT, IDX_MID);
         kani::cover!(true, "c01_recursive_unmap_p3_absent_mid: reachable");
@@ -700,7 +737,7 @@ mod verif_c01_recursive_step {
     //@ obligation C09 C09.recursive_unmap_4kib.shape_p3_absent.no_access_outside_page_tables tier=thorough bounded="pool of 7 tables (4 path + 3 allocatable); tree-shaped sparse pre-state (target path, one neighbour word per path table, garbage in allocatable frames); recursive index 300; page-table indices (256,0,510,511)"
     #[kani::proof]
     #[kani::stub(crate::structures::paging::page_table::PageTable::zero, zero_stub)]
-    #[kani::stub(crate::addr::VirtAddr::as_mut_ptr, mmu_as_mut_ptr)]
+    #[kani::stub(crate::addr::VirtAddr::as_mut_ptr, mmu_trap_as_mut_ptr)]
     fn c01_recursive_unmap_p3_absent_up() {
         rec_leaf_op_step!("unmap", 0, "p3_absent", P3_ABSENT, IDX_UP);
         kani::cover!(true, "c01_recursive_unmap_p3_absent_up: reachable");
@@ -719,7 +756,7 @@ mod verif_c01_recursive_step {
     //@ obligation C09 C09.recursive_unmap_4kib.shape_p3_huge.no_access_outside_page_tables tier=thorough bounded="pool of 7 tables (4 path + 3 allocatable); tree-shaped sparse pre-state (target path, one neighbour word per path table, garbage in allocatable frames); recursive index 300; page-table indices (255,511,0,256)"
     #[kani::proof]
     #[kani::stub(crate::structures::paging::page_table::PageTable::zero, zero_stub)]
-    #[kani::stub(crate::addr::VirtAddr::as_mut_ptr, mmu_as_mut_ptr)]
+    #[kani::stub(crate::addr::VirtAddr::as_mut_ptr, mmu_trap_as_mut_ptr)]
     fn c01_recursive_unmap_p3_huge_mid() {
         rec_leaf_op_step!("unmap", 0, "p3_huge", P3_HUGE, IDX_MID);
         kani::cover!(true, "c01_recursive_unmap_p3_huge_mid: reachable");
@@ -738,7 +775,7 @@ mod verif_c01_recursive_step {
     //@ obligation C09 C09.recursive_unmap_4kib.shape_p3_huge.no_access_outside_page_tables tier=thorough bounded="pool of 7 tables (4 path + 3 allocatable); tree-shaped sparse pre-state (target path, one neighbour word per path table, garbage in allocatable frames); recursive index 300; page-table indices (256,0,510,511)"
     #[kani::proof]
     #[kani::stub(crate::structures::paging::page_table::PageTable::zero, zero_stub)]
-    #[kani::stub(crate::addr::VirtAddr::as_mut_ptr, mmu_as_mut_ptr)]
+    #[kani::stub(crate::addr::VirtAddr::as_mut_ptr, mmu_trap_as_mut_ptr)]
     fn c01_recursive_unmap_p3_huge_up() {
         rec_leaf_op_step!("unmap", 0, "p3_huge", P3_HUGE, IDX_UP);
         kani::cover!(true, "c01_recursive_unmap_p3_huge_up: reachable");
@@ -757,7 +794,7 @@ mod verif_c01_recursive_step {
     //@ obligation C09 C09.recursive_unmap_4kib.shape_p2_absent.no_access_outside_page_tables tier=thorough bounded="pool of 7 tables (4 path + 3 allocatable); tree-shaped sparse pre-state (target path, one neighbour word per path table, garbage in allocatable frames); recursive index 300; page-table indices (255,511,0,256)"
     #[kani::proof]
     #[kani::stub(crate::structures::paging::page_table::PageTable::zero, zero_stub)]
-    #[kani::stub(crate::addr::VirtAddr::as_mut_ptr, mmu_as_mut_ptr)]
+    #[kani::stub(crate::addr::VirtAddr::as_mut_ptr, mmu_trap_as_mut_ptr)]
     fn c01_recursive_unmap_p2_absent_mid() {
         rec_leaf_op_step!("unmap", 0, "p2_absent", P2_ABSENT, IDX_MID);
         kani::cover!(true, "c01_recursive_unmap_p2_absent_mid: reachable");
@@ -776,7 +813,7 @@ mod verif_c01_recursive_step {
     //@ obligation C09 C09.recursive_unmap_4kib.shape_p2_absent.no_access_outside_page_tables tier=thorough bounded="pool of 7 tables (4 path + 3 allocatable); tree-shaped sparse pre-state (target path, one neighbour word per path table, garbage in allocatable frames); recursive index 300; page-table indices (256,0,510,511)"
     #[kani::proof]
     #[kani::stub(crate::structures::paging::page_table::PageTable::zero, zero_stub)]
-    #[kani::stub(crate::addr::VirtAddr::as_mut_ptr, mmu_as_mut_ptr)]
+    #[kani::stub(crate::addr::VirtAddr::as_mut_ptr, mmu_trap_as_mut_ptr)]
     fn c01_recursive_unmap_p2_absent_up() {
         rec_leaf_op_step!("unmap", 0, "p2_absent", P2_ABSENT, IDX_UP);
         kani::cover!(true, "c01_recursive_unmap_p2_absent_up: reachable");
@@ -795,7 +832,7 @@ mod verif_c01_recursive_step {
     //@ obligation C09 C09.recursive_unmap_4kib.shape_p2_huge.no_access_outside_page_tables bounded="pool of 7 tables (4 path + 3 allocatable); tree-shaped sparse pre-state (target path, one neighbour word per path table, garbage in allocatable frames); recursive index 300; page-table indices (255,511,0,256)"
     #[kani::proof]
     #[kani::stub(crate::structures::paging::page_table::PageTable::zero, zero_stub)]
-    #[kani::stub(crate::addr::VirtAddr::as_mut_ptr, mmu_as_mut_ptr)]
+    #[kani::stub(crate::addr::VirtAddr::as_mut_ptr, mmu_trap_as_mut_ptr)]
     fn c01_recursive_unmap_p2_huge_mid() {
         rec_leaf_op_step!("unmap", 0, "p2_huge", P2_HUGE, IDX_MID);
         kani::cover!(true, "c01_recursive_unmap_p2_huge_mid: reachable");
@@ -814,7 +851,7 @@ mod verif_c01_recursive_step {
     //@ obligation C09 C09.recursive_unmap_4kib.shape_p2_huge.no_access_outside_page_tables tier=thorough bounded="pool of 7 tables (4 path + 3 allocatable); tree-shaped sparse pre-state (target path, one neighbour word per path table, garbage in allocatable frames); recursive index 300; page-table indices (256,0,510,511)"
     #[kani::proof]
     #[kani::stub(crate::structures::paging::page_table::PageTable::zero, zero_stub)]
-    #[kani::stub(crate::addr::VirtAddr::as_mut_ptr, mmu_as_mut_ptr)]
+    #[kani::stub(crate::addr::VirtAddr::as_mut_ptr, mmu_trap_as_mut_ptr)]
     fn c01_recursive_unmap_p2_huge_up() {
         rec_leaf_op_step!("unmap", 0, "p2_huge", P2_HUGE, IDX_UP);
         kani::cover!(true, "c01_recursive_unmap_p2_huge_up: reachable");
@@ -833,7 +870,7 @@ mod verif_c01_recursive_step {
     //@ obligation C09 C09.recursive_unmap_4kib.shape_p1_absent.no_access_outside_page_tables tier=thorough bounded="pool of 7 tables (4 path + 3 allocatable); tree-shaped sparse pre-state (target path, one neighbour word per path table, garbage in allocatable frames); recursive index 300; page-table indices (255,511,0,256)"
     #[kani::proof]
     #[kani::stub(crate::structures::paging::page_table::PageTable::zero, zero_stub)]
-    #[kani::stub(crate::addr::VirtAddr::as_mut_ptr, mmu_as_mut_ptr)]
+    #[kani::stub(crate::addr::VirtAddr::as_mut_ptr, mmu_trap_as_mut_ptr)]
     fn c01_recursive_unmap_p1_absent_mid() {
         rec_leaf_op_step!("unmap", 0, "p1_absent", P1_ABSENT, IDX_MID);
         kani::cover!(true, "c01_recursive_unmap_p1_absent_mid: reachable");
@@ -852,7 +889,7 @@ mod verif_c01_recursive_step {
     //@ obligation C09 C09.recursive_unmap_4kib.shape_p1_absent.no_access_outside_page_tables tier=thorough bounded="pool of 7 tables (4 path + 3 allocatable); tree-shaped sparse pre-state (target path, one neighbour word per path table, garbage in allocatable frames); recursive index 300; page-table indices (256,0,510,511)"
     #[kani::proof]
     #[kani::stub(crate::structures::paging::page_table::PageTable::zero, zero_stub)]
-    #[kani::stub(crate::addr::VirtAddr::as_mut_ptr, mmu_as_mut_ptr)]
+    #[kani::stub(crate::addr::VirtAddr::as_mut_ptr, mmu_trap_as_mut_ptr)]
     fn c01_recursive_unmap_p1_absent_up() {
         rec_leaf_op_step!("unmap", 0, "p1_absent", P1_ABSENT, IDX_UP);
         kani::cover!(true, "c01_recursive_unmap_p1_absent_up: reachable");
@@ -871,7 +908,7 @@ mod verif_c01_recursive_step {
     //@ obligation C09 C09.recursive_unmap_4kib.shape_p1_leaf.no_access_outside_page_tables tier=thorough bounded="pool of 7 tables (4 path + 3 allocatable); tree-shaped sparse pre-state (target path, one neighbour word per path table, garbage in allocatable frames); recursive index 300; page-table indices (255,511,0,256)"
     #[kani::proof]
     #[kani::stub(crate::structures::paging::page_table::PageTable::zero, zero_stub)]
-    #[kani::stub(crate::addr::VirtAddr::as_mut_ptr, mmu_as_mut_ptr)]
+    #[kani::stub(crate::addr::VirtAddr::as_mut_ptr, mmu_trap_as_mut_ptr)]
     fn c01_recursive_unmap_p1_leaf_mid() {
         rec_leaf_op_step!("unmap", 0, "p1_leaf", P1_LEAF, IDX_MID);
         kani::cover!(true, "c01_recursive_unmap_p1_leaf_mid: reachable");
@@ -890,7 +927,7 @@ mod verif_c01_recursive_step {
     //@ obligation C09 C09.recursive_unmap_4kib.shape_p1_leaf.no_access_outside_page_tables bounded="pool of 7 tables (4 path + 3 allocatable); tree-shaped sparse pre-state (target path, one neighbour word per path table, garbage in allocatable frames); recursive index 300; page-table indices (256,0,510,511)"
     #[kani::proof]
     #[kani::stub(crate::structures::paging::page_table::PageTable::zero, zero_stub)]
-    #[kani::stub(crate::addr::VirtAddr::as_mut_ptr, mmu_as_mut_ptr)]
+    #[kani::stub(crate::addr::VirtAddr::as_mut_ptr, mmu_trap_as_mut_ptr)]
     fn c01_recursive_unmap_p1_leaf_up() {
         rec_leaf_op_step!("unmap", 0, "p1_leaf", P1_LEAF, IDX_UP);
         kani::cover!(true, "c01_recursive_unmap_p1_leaf_up: reachable");
@@ -908,7 +945,7 @@ mod verif_c01_recursive_step {
     //@ obligation C09 C09.recursive_update_flags_4kib.shape_p4_absent.no_access_outside_page_tables tier=thorough bounded="pool of 7 tables (4 path + 3 allocatable); tree-shaped sparse pre-state (target path, one neighbour word per path table, garbage in allocatable frames); recursive index 300; page-table indices (255,511,0,256)"
     #[kani::proof]
     #[kani::stub(crate::structures::paging::page_table::PageTable::zero, zero_stub)]
-    #[kani::stub(crate::addr::VirtAddr::as_mut_ptr, mmu_as_mut_ptr)]
+    #[kani::stub(crate::addr::VirtAddr::as_mut_ptr, mmu_trap_as_mut_ptr)]
     fn c01_recursive_update_flags_p4_absent_mid() {
         rec_leaf_op_step!("update_flags", 1, "p4_absent", P4_ABSENT, IDX_MID);
         kani::cover!(true, "c01_recursive_update_flags_p4_absent_mid: reachable");
@@ -926,7 +963,7 @@ mod verif_c01_recursive_step {
     //@ obligation C09 C09.recursive_update_flags_4kib.shape_p4_absent.no_access_outside_page_tables tier=thorough bounded="pool of 7 tables (4 path + 3 allocatable); tree-shaped sparse pre-state (target path, one neighbour word per path table, garbage in allocatable frames); recursive index 300; page-table indices (256,0,510,511)"
     #[kani::proof]
     #[kani::stub(crate::structures::paging::page_table::PageTable::zero, zero_stub)]
-    #[kani::stub(crate::addr::VirtAddr::as_mut_ptr, mmu_as_mut_ptr)]
+    #[kani::stub(crate::addr::VirtAddr::as_mut_ptr, mmu_trap_as_mut_ptr)]
     fn c01_recursive_update_flags_p4_absent_up() {
         rec_leaf_op_step!("update_flags", 1, "p4_absent", P4_ABSENT, IDX_UP);
         kani::cover!(true, "c01_recursive_update_flags_p4_absent_up: reachable");
@@ -944,7 +981,7 @@ mod verif_c01_recursive_step {
     //@ obligation C09 C09.recursive_update_flags_4kib.shape_p3_absent.no_access_outside_page_tables tier=thorough bounded="pool of 7 tables (4 path + 3 allocatable); tree-shaped sparse pre-state (target path, one neighbour word per path table, garbage in allocatable frames); recursive index 300; page-table indices (255,511,0,256)"
     #[kani::proof]
     #[kani::stub(crate::structures::paging::page_table::PageTable::zero, zero_stub)]
-    #[kani::stub(crate::addr::VirtAddr::as_mut_ptr, mmu_as_mut_ptr)]
+    #[kani::stub(crate::addr::VirtAddr::as_mut_ptr, mmu_trap_as_mut_ptr)]
     fn c01_recursive_update_flags_p3_absent_mid() {
         rec_leaf_op_step!("update_flags", 1, "p3_absent", P3_ABSENT, IDX_MID);
         kani::cover!(true, "c01_recursive_update_flags_p3_absent_mid: reachable");
@@ -962,7 +999,7 @@ mod verif_c01_recursive_step {
     //@ obligation C09 C09.recursive_update_flags_4kib.shape_p3_absent.no_access_outside_page_tables tier=thorough bounded="pool of 7 tables (4 path + 3 allocatable); tree-shaped sparse pre-state (target path, one neighbour word per path table, garbage in allocatable frames); recursive index 300; page-table indices (256,0,510,511)"
     #[kani::proof]
     #[kani::stub(crate::structures::paging::page_table::PageTable::zero, zero_stub)]
-    #[kani::stub(crate::addr::VirtAddr::as_mut_ptr, mmu_as_mut_ptr)]
+    #[kani::stub(crate::addr::VirtAddr::as_mut_ptr, mmu_trap_as_mut_ptr)]
     fn c01_recursive_update_flags_p3_absent_up() {
         rec_leaf_op_step!("update_flags", 1, "p3_absent", P3_ABSENT, IDX_UP);
         kani::cover!(true, "c01_recursive_update_flags_p3_absent_up: reachable");
@@ -980,7 +1017,7 @@ mod verif_c01_recursive_step {
     //@ obligation C09 C09.recursive_update_flags_4kib.shape_p3_huge.no_access_outside_page_tables tier=thorough bounded="pool of 7 tables (4 path + 3 allocatable); tree-shaped sparse pre-state (target path, one neighbour word per path table, garbage in allocatable frames); recursive index 300; page-table indices (255,511,0,256)"
     #[kani::proof]
     #[kani::stub(crate::structures::paging::page_table::PageTable::zero, zero_stub)]
-    #[kani::stub(crate::addr::VirtAddr::as_mut_ptr, mmu_as_mut_ptr)]
+    #[kani::stub(crate::addr::VirtAddr::as_mut_ptr, mmu_trap_as_mut_ptr)]
     fn c01_recursive_update_flags_p3_huge_mid() {
         rec_leaf_op_step!("update_flags", 1, "p3_huge", P3_HUGE, IDX_MID);
         kani::cover!(true, "c01_recursive_update_flags_p3_huge_mid: reachable");
@@ -998,7 +1035,7 @@ mod verif_c01_recursive_step {
     //@ obligation C09 C09.recursive_update_flags_4kib.shape_p3_huge.no_access_outside_page_tables bounded="pool of 7 tables (4 path + 3 allocatable); tree-shaped sparse pre-state (target path, one neighbour word per path table, garbage in allocatable frames); recursive index 300; page-table indices (256,0,510,511)"
     #[kani::proof]
     #[kani::stub(crate::structures::paging::page_table::PageTable::zero, zero_stub)]
-    #[kani::stub(crate::addr::VirtAddr::as_mut_ptr, mmu_as_mut_ptr)]
+    #[kani::stub(crate::addr::VirtAddr::as_mut_ptr, mmu_trap_as_mut_ptr)]
     fn c01_recursive_update_flags_p3_huge_up() {
         rec_leaf_op_step!("update_flags", 1, "p3_huge", P3_HUGE, IDX_UP);
         kani::cover!(true, "c01_recursive_update_flags_p3_huge_up: reachable");
@@ -1016,7 +1053,7 @@ mod verif_c01_recursive_step {
     //@ obligation C09 C09.recursive_update_flags_4kib.shape_p2_absent.no_access_outside_page_tables tier=thorough bounded="pool of 7 tables (4 path + 3 allocatable); tree-shaped sparse pre-state (target path, one neighbour word per path table, garbage in allocatable frames); recursive index 300; page-table indices (255,511,0,256)"
     #[kani::proof]
     #[kani::stub(crate::structures::paging::page_table::PageTable::zero, zero_stub)]
-    #[kani::stub(crate::addr::VirtAddr::as_mut_ptr, mmu_as_mut_ptr)]
+    #[kani::stub(crate::addr::VirtAddr::as_mut_ptr, mmu_trap_as_mut_ptr)]
     fn c01_recursive_update_flags_p2_absent_mid() {
         rec_leaf_op_step!("update_flags", 1, "p2_absent", P2_ABSENT, IDX_MID);
         kani::cover!(true, "c01_recursive_update_flags_p2_absent_mid: reachable");
@@ -1034,7 +1071,7 @@ mod verif_c01_recursive_step {
     //@ obligation C09 C09.recursive_update_flags_4kib.shape_p2_absent.no_access_outside_page_tables tier=thorough bounded="pool of 7 tables (4 path + 3 allocatable); tree-shaped sparse pre-state (target path, one neighbour word per path table, garbage in allocatable frames); recursive index 300; page-table indices (256,0,510,511)"
     #[kani::proof]
     #[kani::stub(crate::structures::paging::page_table::PageTable::zero, zero_stub)]
-    #[kani::stub(crate::addr::VirtAddr::as_mut_ptr, mmu_as_mut_ptr)]
+    #[kani::stub(crate::addr::VirtAddr::as_mut_ptr, mmu_trap_as_mut_ptr)]
     fn c01_recursive_update_flags_p2_absent_up() {
         rec_leaf_op_step!("update_flags", 1, "p2_absent", P2_ABSENT, IDX_UP);
         kani::cover!(true, "c01_recursive_update_flags_p2_absent_up: reachable");
@@ -1052,7 +1089,7 @@ mod verif_c01_recursive_step {
     //@ obligation C09 C09.recursive_update_flags_4kib.shape_p2_huge.no_access_outside_page_tables tier=thorough bounded="pool of 7 tables (4 path + 3 allocatable); tree-shaped sparse pre-state (target path, one neighbour word per path table, garbage in allocatable frames); recursive index 300; page-table indices (255,511,0,256)"
     #[kani::proof]
     #[kani::stub(crate::structures::paging::page_table::PageTable::zero, zero_stub)]
-    #[kani::stub(crate::addr::VirtAddr::as_mut_ptr, mmu_as_mut_ptr)]
+    #[kani::stub(crate::addr::VirtAddr::as_mut_ptr, mmu_trap_as_mut_ptr)]
     fn c01_recursive_update_flags_p2_huge_mid() {
         rec_leaf_op_step!("update_flags", 1, "p2_huge", P2_HUGE, IDX_MID);
         kani::cover!(true, "c01_recursive_update_flags_p2_huge_mid: reachable");
@@ -1070,7 +1107,7 @@ mod verif_c01_recursive_step {
     //@ obligation C09 C09.recursive_update_flags_4kib.shape_p2_huge.no_access_outside_page_tables tier=thorough bounded="pool of 7 tables (4 path + 3 allocatable); tree-shaped sparse pre-state (target path, one neighbour word per path table, garbage in allocatable frames); recursive index 300; page-table indices (256,0,510,511)"
     #[kani::proof]
     #[kani::stub(crate::structures::paging::page_table::PageTable::zero, zero_stub)]
-    #[kani::stub(crate::addr::VirtAddr::as_mut_ptr, mmu_as_mut_ptr)]
+    #[kani::stub(crate::addr::VirtAddr::as_mut_ptr, mmu_trap_as_mut_ptr)]
     fn c01_recursive_update_flags_p2_huge_up() {
         rec_leaf_op_step!("update_flags", 1, "p2_huge", P2_HUGE, IDX_UP);
         kani::cover!(true, "c01_recursive_update_flags_p2_huge_up: reachable");
@@ -1088,7 +1125,7 @@ mod verif_c01_recursive_step {
     //@ obligation C09 C09.recursive_update_flags_4kib.shape_p1_absent.no_access_outside_page_tables tier=thorough bounded="pool of 7 tables (4 path + 3 allocatable); tree-shaped sparse pre-state (target path, one neighbour word per path table, garbage in allocatable frames); recursive index 300; page-table indices (255,511,0,256)"
     #[kani::proof]
     #[kani::stub(crate::structures::paging::page_table::PageTable::zero, zero_stub)]
-    #[kani::stub(crate::addr::VirtAddr::as_mut_ptr, mmu_as_mut_ptr)]
+    #[kani::stub(crate::addr::VirtAddr::as_mut_ptr, mmu_trap_as_mut_ptr)]
     fn c01_recursive_update_flags_p1_absent_mid() {
         rec_leaf_op_step!("update_flags", 1, "p1_absent", P1_ABSENT, IDX_MID);
         kani::cover!(true, "c01_recursive_update_flags_p1_absent_mid: reachable");
@@ -1106,7 +1143,7 @@ mod verif_c01_recursive_step {
     //@ obligation C09 C09.recursive_update_flags_4kib.shape_p1_absent.no_access_outside_page_tables tier=thorough bounded="pool of 7 tables (4 path + 3 allocatable); tree-shaped sparse pre-state (target path, one neighbour word per path table, garbage in allocatable frames); recursive index 300; page-table indices (256,0,510,511)"
     #[kani::proof]
     #[kani::stub(crate::structures::paging::page_table::PageTable::zero, zero_stub)]
-    #[kani::stub(crate::addr::VirtAddr::as_mut_ptr, mmu_as_mut_ptr)]
+    #[kani::stub(crate::addr::VirtAddr::as_mut_ptr, mmu_trap_as_mut_ptr)]
     fn c01_recursive_update_flags_p1_absent_up() {
         rec_leaf_op_step!("update_flags", 1, "p1_absent", P1_ABSENT, IDX_UP);
         kani::cover!(true, "c01_recursive_update_flags_p1_absent_up: reachable");
@@ -1124,7 +1161,7 @@ mod verif_c01_recursive_step {
     //@ obligation C09 C09.recursive_update_flags_4kib.shape_p1_leaf.no_access_outside_page_tables tier=thorough bounded="pool of 7 tables (4 path + 3 allocatable); tree-shaped sparse pre-state (target path, one neighbour word per path table, garbage in allocatable frames); recursive index 300; page-table indices (255,511,0,256)"
     #[kani::proof]
     #[kani::stub(crate::structures::paging::page_table::PageTable::zero, zero_stub)]
-    #[kani::stub(crate::addr::VirtAddr::as_mut_ptr, mmu_as_mut_ptr)]
+    #[kani::stub(crate::addr::VirtAddr::as_mut_ptr, mmu_trap_as_mut_ptr)]
     fn c01_recursive_update_flags_p1_leaf_mid() {
         rec_leaf_op_step!("update_flags", 1, "p1_leaf", P1_LEAF, IDX_MID);
         kani::cover!(true, "c01_recursive_update_flags_p1_leaf_mid: reachable");
@@ -1142,7 +1179,7 @@ mod verif_c01_recursive_step {
     //@ obligation C09 C09.recursive_update_flags_4kib.shape_p1_leaf.no_access_outside_page_tables tier=thorough bounded="pool of 7 tables (4 path + 3 allocatable); tree-shaped sparse pre-state (target path, one neighbour word per path table, garbage in allocatable frames); recursive index 300; page-table indices (256,0,510,511)"
     #[kani::proof]
     #[kani::stub(crate::structures::paging::page_table::PageTable::zero, zero_stub)]
-    #[kani::stub(crate::addr::VirtAddr::as_mut_ptr, mmu_as_mut_ptr)]
+    #[kani::stub(crate::addr::VirtAddr::as_mut_ptr, mmu_trap_as_mut_ptr)]
     fn c01_recursive_update_flags_p1_leaf_up() {
         rec_leaf_op_step!("update_flags", 1, "p1_leaf", P1_LEAF, IDX_UP);
         kani::cover!(true, "c01_recursive_update_flags_p1_leaf_up: reachable");
@@ -1160,7 +1197,7 @@ mod verif_c01_recursive_step {
     //@ obligation C09 C09.recursive_translate_page_4kib.shape_p4_absent.no_access_outside_page_tables tier=thorough bounded="pool of 7 tables (4 path + 3 allocatable); tree-shaped sparse pre-state (target path, one neighbour word per path table, garbage in allocatable frames); recursive index 300; page-table indices (255,511,0,256)"
     #[kani::proof]
     #[kani::stub(crate::structures::paging::page_table::PageTable::zero, zero_stub)]
-    #[kani::stub(crate::addr::VirtAddr::as_mut_ptr, mmu_as_mut_ptr)]
+    #[kani::stub(crate::addr::VirtAddr::as_mut_ptr, mmu_trap_as_mut_ptr)]
     fn c01_recursive_translate_page_p4_absent_mid() {
         rec_leaf_op_step!("translate_page", 2, "p4_absent", P4_ABSENT, IDX_MID);
         kani::cover!(true, "c01_recursive_translate_page_p4_absent_mid: reachable");
@@ -1178,7 +1215,7 @@ mod verif_c01_recursive_step {
     //@ obligation C09 C09.recursive_translate_page_4kib.shape_p4_absent.no_access_outside_page_tables tier=thorough bounded="pool of 7 tables (4 path + 3 allocatable); tree-shaped sparse pre-state (target path, one neighbour word per path table, garbage in allocatable frames); recursive index 300; page-table indices (256,0,510,511)"
     #[kani::proof]
     #[kani::stub(crate::structures::paging::page_table::PageTable::zero, zero_stub)]
-    #[kani::stub(crate::addr::VirtAddr::as_mut_ptr, mmu_as_mut_ptr)]
+    #[kani::stub(crate::addr::VirtAddr::as_mut_ptr, mmu_trap_as_mut_ptr)]
     fn c01_recursive_translate_page_p4_absent_up() {
         rec_leaf_op_step!("translate_page", 2, "p4_absent", P4_ABSENT, IDX_UP);
         kani::cover!(true, "c01_recursive_translate_page_p4_absent_up: reachable");
@@ -1196,7 +1233,7 @@ mod verif_c01_recursive_step {
     //@ obligation C09 C09.recursive_translate_page_4kib.shape_p3_absent.no_access_outside_page_tables tier=thorough bounded="pool of 7 tables (4 path + 3 allocatable); tree-shaped sparse pre-state (target path, one neighbour word per path table, garbage in allocatable frames); recursive index 300; page-table indices (255,511,0,256)"
     #[kani::proof]
     #[kani::stub(crate::structures::paging::page_table::PageTable::zero, zero_stub)]
-    #[kani::stub(crate::addr::VirtAddr::as_mut_ptr, mmu_as_mut_ptr)]
+    #[kani::stub(crate::addr::VirtAddr::as_mut_ptr, mmu_trap_as_mut_ptr)]
     fn c01_recursive_translate_page_p3_absent_mid() {
         rec_leaf_op_step!("translate_page", 2, "p3_absent", P3_ABSENT, IDX_MID);
         kani::cover!(true, "c01_recursive_translate_page_p3_absent_mid: reachable");
@@ -1214,7 +1251,7 @@ mod verif_c01_recursive_step {
     //@ obligation C09 C09.recursive_translate_page_4kib.shape_p3_absent.no_access_outside_page_tables tier=thorough bounded="pool of 7 tables (4 path + 3 allocatable); tree-shaped sparse pre-state (target path, one neighbour word per path table, garbage in allocatable frames); recursive index 300; page-table indices (256,0,510,511)"
     #[kani::proof]
     #[kani::stub(crate::structures::paging::page_table::PageTable::zero, zero_stub)]
-    #[kani::stub(crate::addr::VirtAddr::as_mut_ptr, mmu_as_mut_ptr)]
+    #[kani::stub(crate::addr::VirtAddr::as_mut_ptr, mmu_trap_as_mut_ptr)]
     fn c01_recursive_translate_page_p3_absent_up() {
         rec_leaf_op_step!("translate_page", 2, "p3_absent", P3_ABSENT, IDX_UP);
         kani::cover!(true, "c01_recursive_translate_page_p3_absent_up: reachable");
@@ -1232,7 +1269,7 @@ mod verif_c01_recursive_step {
     //@ obligation C09 C09.recursive_translate_page_4kib.shape_p3_huge.no_access_outside_page_tables tier=thorough bounded="pool of 7 tables (4 path + 3 allocatable); tree-shaped sparse pre-state (target path, one neighbour word per path table, garbage in allocatable frames); recursive index 300; page-table indices (255,511,0,256)"
     #[kani::proof]
     #[kani::stub(crate::structures::paging::page_table::PageTable::zero, zero_stub)]
-    #[kani::stub(crate::addr::VirtAddr::as_mut_ptr, mmu_as_mut_ptr)]
+    #[kani::stub(crate::addr::VirtAddr::as_mut_ptr, mmu_trap_as_mut_ptr)]
     fn c01_recursive_translate_page_p3_huge_mid() {
         rec_leaf_op_step!("translate_page", 2, "p3_huge", P3_HUGE, IDX_MID);
         kani::cover!(true, "c01_recursive_translate_page_p3_huge_mid: reachable");
@@ -1250,7 +1287,7 @@ mod verif_c01_recursive_step {
     //@ obligation C09 C09.recursive_translate_page_4kib.shape_p3_huge.no_access_outside_page_tables tier=thorough bounded="pool of 7 tables (4 path + 3 allocatable); tree-shaped sparse pre-state (target path, one neighbour word per path table, garbage in allocatable frames); recursive index 300; page-table indices (256,0,510,511)"
     #[kani::proof]
     #[kani::stub(crate::structures::paging::page_table::PageTable::zero, zero_stub)]
-    #[kani::stub(crate::addr::VirtAddr::as_mut_ptr, mmu_as_mut_ptr)]
+    #[kani::stub(crate::addr::VirtAddr::as_mut_ptr, mmu_trap_as_mut_ptr)]
     fn c01_recursive_translate_page_p3_huge_up() {
         rec_leaf_op_step!("translate_page", 2, "p3_huge", P3_HUGE, IDX_UP);
         kani::cover!(true, "c01_recursive_translate_page_p3_huge_up: reachable");
@@ -1268,7 +1305,7 @@ mod verif_c01_recursive_step {
     //@ obligation C09 C09.recursive_translate_page_4kib.shape_p2_absent.no_access_outside_page_tables tier=thorough bounded="pool of 7 tables (4 path + 3 allocatable); tree-shaped sparse pre-state (target path, one neighbour word per path table, garbage in allocatable frames); recursive index 300; page-table indices (255,511,0,256)"
     #[kani::proof]
     #[kani::stub(crate::structures::paging::page_table::PageTable::zero, zero_stub)]
-    #[kani::stub(crate::addr::VirtAddr::as_mut_ptr, mmu_as_mut_ptr)]
+    #[kani::stub(crate::addr::VirtAddr::as_mut_ptr, mmu_trap_as_mut_ptr)]
     fn c01_recursive_translate_page_p2_absent_mid() {
         rec_leaf_op_step!("translate_page", 2, "p2_absent", P2_ABSENT, IDX_MID);
         kani::cover!(true, "c01_recursive_translate_page_p2_absent_mid: reachable");
@@ -1286,7 +1323,7 @@ mod verif_c01_recursive_step {
     //@ obligation C09 C09.recursive_translate_page_4kib.shape_p2_absent.no_access_outside_page_tables tier=thorough bounded="pool of 7 tables (4 path + 3 allocatable); tree-shaped sparse pre-state (target path, one neighbour word per path table, garbage in allocatable frames); recursive index 300; page-table indices (256,0,510,511)"
     #[kani::proof]
     #[kani::stub(crate::structures::paging::page_table::PageTable::zero, zero_stub)]
-    #[kani::stub(crate::addr::VirtAddr::as_mut_ptr, mmu_as_mut_ptr)]
+    #[kani::stub(crate::addr::VirtAddr::as_mut_ptr, mmu_trap_as_mut_ptr)]
     fn c01_recursive_translate_page_p2_absent_up() {
         rec_leaf_op_step!("translate_page", 2, "p2_absent", P2_ABSENT, IDX_UP);
         kani::cover!(true, "c01_recursive_translate_page_p2_absent_up: reachable");
@@ -1304,7 +1341,7 @@ mod verif_c01_recursive_step {
     //@ obligation C09 C09.recursive_translate_page_4kib.shape_p2_huge.no_access_outside_page_tables tier=thorough bounded="pool of 7 tables (4 path + 3 allocatable); tree-shaped sparse pre-state (target path, one neighbour word per path table, garbage in allocatable frames); recursive index 300; page-table indices (255,511,0,256)"
     #[kani::proof]
     #[kani::stub(crate::structures::paging::page_table::PageTable::zero, zero_stub)]
-    #[kani::stub(crate::addr::VirtAddr::as_mut_ptr, mmu_as_mut_ptr)]
+    #[kani::stub(crate::addr::VirtAddr::as_mut_ptr, mmu_trap_as_mut_ptr)]
     fn c01_recursive_translate_page_p2_huge_mid() {
         rec_leaf_op_step!("translate_page", 2, "p2_huge", P2_HUGE, IDX_MID);
         kani::cover!(true, "c01_recursive_translate_page_p2_huge_mid: reachable");
@@ -1322,7 +1359,7 @@ mod verif_c01_recursive_step {
     //@ obligation C09 C09.recursive_translate_page_4kib.shape_p2_huge.no_access_outside_page_tables bounded="pool of 7 tables (4 path + 3 allocatable); tree-shaped sparse pre-state (target path, one neighbour word per path table, garbage in allocatable frames); recursive index 300; page-table indices (256,0,510,511)"
     #[kani::proof]
     #[kani::stub(crate::structures::paging::page_table::PageTable::zero, zero_stub)]
-    #[kani::stub(crate::addr::VirtAddr::as_mut_ptr, mmu_as_mut_ptr)]
+    #[kani::stub(crate::addr::VirtAddr::as_mut_ptr, mmu_trap_as_mut_ptr)]
     fn c01_recursive_translate_page_p2_huge_up() {
         rec_leaf_op_step!("translate_page", 2, "p2_huge", P2_HUGE, IDX_UP);
         kani::cover!(true, "c01_recursive_translate_page_p2_huge_up: reachable");
@@ -1340,7 +1377,7 @@ mod verif_c01_recursive_step {
     //@ obligation C09 C09.recursive_translate_page_4kib.shape_p1_absent.no_access_outside_page_tables tier=thorough bounded="pool of 7 tables (4 path + 3 allocatable); tree-shaped sparse pre-state (target path, one neighbour word per path table, garbage in allocatable frames); recursive index 300; page-table indices (255,511,0,256)"
     #[kani::proof]
     #[kani::stub(crate::structures::paging::page_table::PageTable::zero, zero_stub)]
-    #[kani::stub(crate::addr::VirtAddr::as_mut_ptr, mmu_as_mut_ptr)]
+    #[kani::stub(crate::addr::VirtAddr::as_mut_ptr, mmu_trap_as_mut_ptr)]
     fn c01_recursive_translate_page_p1_absent_mid() {
         rec_leaf_op_step!("translate_page", 2, "p1_absent", P1_ABSENT, IDX_MID);
         kani::cover!(true, "c01_recursive_translate_page_p1_absent_mid: reachable");
@@ -1358,7 +1395,7 @@ mod verif_c01_recursive_step {
     //@ obligation C09 C09.recursive_translate_page_4kib.shape_p1_absent.no_access_outside_page_tables tier=thorough bounded="pool of 7 tables (4 path + 3 allocatable); tree-shaped sparse pre-state (target path, one neighbour word per path table, garbage in allocatable frames); recursive index 300; page-table indices (256,0,510,511)"
     #[kani::proof]
     #[kani::stub(crate::structures::paging::page_table::PageTable::zero, zero_stub)]
-    #[kani::stub(crate::addr::VirtAddr::as_mut_ptr, mmu_as_mut_ptr)]
+    #[kani::stub(crate::addr::VirtAddr::as_mut_ptr, mmu_trap_as_mut_ptr)]
     fn c01_recursive_translate_page_p1_absent_up() {
         rec_leaf_op_step!("translate_page", 2, "p1_absent", P1_ABSENT, IDX_UP);
         kani::cover!(true, "c01_recursive_translate_page_p1_absent_up: reachable");
@@ -1376,7 +1413,7 @@ mod verif_c01_recursive_step {
     //@ obligation C09 C09.recursive_translate_page_4kib.shape_p1_leaf.no_access_outside_page_tables tier=thorough bounded="pool of 7 tables (4 path + 3 allocatable); tree-shaped sparse pre-state (target path, one neighbour word per path table, garbage in allocatable frames); recursive index 300; page-table indices (255,511,0,256)"
     #[kani::proof]
     #[kani::stub(crate::structures::paging::page_table::PageTable::zero, zero_stub)]
-    #[kani::stub(crate::addr::VirtAddr::as_mut_ptr, mmu_as_mut_ptr)]
+    #[kani::stub(crate::addr::VirtAddr::as_mut_ptr, mmu_trap_as_mut_ptr)]
     fn c01_recursive_translate_page_p1_leaf_mid() {
         rec_leaf_op_step!("translate_page", 2, "p1_leaf", P1_LEAF, IDX_MID);
         kani::cover!(true, "c01_recursive_translate_page_p1_leaf_mid: reachable");
@@ -1394,7 +1431,7 @@ mod verif_c01_recursive_step {
     //@ obligation C09 C09.recursive_translate_page_4kib.shape_p1_leaf.no_access_outside_page_tables tier=thorough bounded="pool of 7 tables (4 path + 3 allocatable); tree-shaped sparse pre-state (target path, one neighbour word per path table, garbage in allocatable frames); recursive index 300; page-table indices (256,0,510,511)"
     #[kani::proof]
     #[kani::stub(crate::structures::paging::page_table::PageTable::zero, zero_stub)]
-    #[kani::stub(crate::addr::VirtAddr::as_mut_ptr, mmu_as_mut_ptr)]
+    #[kani::stub(crate::addr::VirtAddr::as_mut_ptr, mmu_trap_as_mut_ptr)]
     fn c01_recursive_translate_page_p1_leaf_up() {
         rec_leaf_op_step!("translate_page", 2, "p1_leaf", P1_LEAF, IDX_UP);
         kani::cover!(true, "c01_recursive_translate_page_p1_leaf_up: reachable");
@@ -1407,7 +1444,7 @@ mod verif_c01_recursive_step {
     //@ obligation C09 C09.recursive_translate.shape_p4_absent.no_access_outside_page_tables tier=thorough bounded="pool of 7 tables (4 path + 3 allocatable); tree-shaped sparse pre-state (target path, one neighbour word per path table, garbage in allocatable frames); recursive index 300; page-table indices (255,511,0,256)"
     #[kani::proof]
     #[kani::stub(crate::structures::paging::page_table::PageTable::zero, zero_stub)]
-    #[kani::stub(crate::addr::VirtAddr::as_mut_ptr, mmu_as_mut_ptr)]
+    #[kani::stub(crate::addr::VirtAddr::as_mut_ptr, mmu_trap_as_mut_ptr)]
     fn c01_recursive_translate_p4_absent_mid() {
         rec_translate_step!("p4_absent", P4_ABSENT, IDX_MID);
         kani::cover!(true, "c01_recursive_translate_p4_absent_mid: reachable");
@@ -1420,7 +1457,7 @@ mod verif_c01_recursive_step {
     //@ obligation C09 C09.recursive_translate.shape_p4_absent.no_access_outside_page_tables tier=thorough bounded="pool of 7 tables (4 path + 3 allocatable); tree-shaped sparse pre-state (target path, one neighbour word per path table, garbage in allocatable frames); recursive index 300; page-table indices (256,0,510,511)"
     #[kani::proof]
     #[kani::stub(crate::structures::paging::page_table::PageTable::zero, zero_stub)]
-    #[kani::stub(crate::addr::VirtAddr::as_mut_ptr, mmu_as_mut_ptr)]
+    #[kani::stub(crate::addr::VirtAddr::as_mut_ptr, mmu_trap_as_mut_ptr)]
     fn c01_recursive_translate_p4_absent_up() {
         rec_translate_step!("p4_absent", P4_ABSENT, IDX_UP);
         kani::cover!(true, "c01_recursive_translate_p4_absent_up: reachable");
@@ -1433,7 +1470,7 @@ mod verif_c01_recursive_step {
     //@ obligation C09 C09.recursive_translate.shape_p3_absent.no_access_outside_page_tables tier=thorough bounded="pool of 7 tables (4 path + 3 allocatable); tree-shaped sparse pre-state (target path, one neighbour word per path table, garbage in allocatable frames); recursive index 300; page-table indices (255,511,0,256)"
     #[kani::proof]
     #[kani::stub(crate::structures::paging::page_table::PageTable::zero, zero_stub)]
-    #[kani::stub(crate::addr::VirtAddr::as_mut_ptr, mmu_as_mut_ptr)]
+    #[kani::stub(crate::addr::VirtAddr::as_mut_ptr, mmu_trap_as_mut_ptr)]
     fn c01_recursive_translate_p3_absent_mid() {
         rec_translate_step!("p3_absent", P3_ABSENT, IDX_MID);
         kani::cover!(true, "c01_recursive_translate_p3_absent_mid: reachable");
@@ -1446,7 +1483,7 @@ mod verif_c01_recursive_step {
     //@ obligation C09 C09.recursive_translate.shape_p3_absent.no_access_outside_page_tables tier=thorough bounded="pool of 7 tables (4 path + 3 allocatable); tree-shaped sparse pre-state (target path, one neighbour word per path table, garbage in allocatable frames); recursive index 300; page-table indices (256,0,510,511)"
     #[kani::proof]
     #[kani::stub(crate::structures::paging::page_table::PageTable::zero, zero_stub)]
-    #[kani::stub(crate::addr::VirtAddr::as_mut_ptr, mmu_as_mut_ptr)]
+    #[kani::stub(crate::addr::VirtAddr::as_mut_ptr, mmu_trap_as_mut_ptr)]
     fn c01_recursive_translate_p3_absent_up() {
         rec_translate_step!("p3_absent", P3_ABSENT, IDX_UP);
         kani::cover!(true, "c01_recursive_translate_p3_absent_up: reachable");
@@ -1459,7 +1496,7 @@ mod verif_c01_recursive_step {
     //@ obligation C09 C09.recursive_translate.shape_p3_huge.no_access_outside_page_tables bounded="pool of 7 tables (4 path + 3 allocatable); tree-shaped sparse pre-state (target path, one neighbour word per path table, garbage in allocatable frames); recursive index 300; page-table indices (255,511,0,256)"
     #[kani::proof]
     #[kani::stub(crate::structures::paging::page_table::PageTable::zero, zero_stub)]
-    #[kani::stub(crate::addr::VirtAddr::as_mut_ptr, mmu_as_mut_ptr)]
+    #[kani::stub(crate::addr::VirtAddr::as_mut_ptr, mmu_trap_as_mut_ptr)]
     fn c01_recursive_translate_p3_huge_mid() {
         rec_translate_step!("p3_huge", P3_HUGE, IDX_MID);
         kani::cover!(true, "c01_recursive_translate_p3_huge_mid: reachable");
@@ -1472,7 +1509,7 @@ mod verif_c01_recursive_step {
     //@ obligation C09 C09.recursive_translate.shape_p3_huge.no_access_outside_page_tables tier=thorough bounded="pool of 7 tables (4 path + 3 allocatable); tree-shaped sparse pre-state (target path, one neighbour word per path table, garbage in allocatable frames); recursive index 300; page-table indices (256,0,510,511)"
     #[kani::proof]
     #[kani::stub(crate::structures::paging::page_table::PageTable::zero, zero_stub)]
-    #[kani::stub(crate::addr::VirtAddr::as_mut_ptr, mmu_as_mut_ptr)]
+    #[kani::stub(crate::addr::VirtAddr::as_mut_ptr, mmu_trap_as_mut_ptr)]
     fn c01_recursive_translate_p3_huge_up() {
         rec_translate_step!("p3_huge", P3_HUGE, IDX_UP);
         kani::cover!(true, "c01_recursive_translate_p3_huge_up: reachable");
@@ -1485,7 +1522,7 @@ mod verif_c01_recursive_step {
     //@ obligation C09 C09.recursive_translate.shape_p2_absent.no_access_outside_page_tables tier=thorough bounded="pool of 7 tables (4 path + 3 allocatable); tree-shaped sparse pre-state (target path, one neighbour word per path table, garbage in allocatable frames); recursive index 300; page-table indices (255,511,0,256)"
     #[kani::proof]
     #[kani::stub(crate::structures::paging::page_table::PageTable::zero, zero_stub)]
-    #[kani::stub(crate::addr::VirtAddr::as_mut_ptr, mmu_as_mut_ptr)]
+    #[kani::stub(crate::addr::VirtAddr::as_mut_ptr, mmu_trap_as_mut_ptr)]
     fn c01_recursive_translate_p2_absent_mid() {
         rec_translate_step!("p2_absent", P2_ABSENT, IDX_MID);
         kani::cover!(true, "c01_recursive_translate_p2_absent_mid: reachable");
@@ -1498,7 +1535,7 @@ mod verif_c01_recursive_step {
     //@ obligation C09 C09.recursive_translate.shape_p2_absent.no_access_outside_page_tables tier=thorough bounded="pool of 7 tables (4 path + 3 allocatable); tree-shaped sparse pre-state (target path, one neighbour word per path table, garbage in allocatable frames); recursive index 300; page-table indices (256,0,510,511)"
     #[kani::proof]
     #[kani::stub(crate::structures::paging::page_table::PageTable::zero, zero_stub)]
-    #[kani::stub(crate::addr::VirtAddr::as_mut_ptr, mmu_as_mut_ptr)]
+    #[kani::stub(crate::addr::VirtAddr::as_mut_ptr, mmu_trap_as_mut_ptr)]
     fn c01_recursive_translate_p2_absent_up() {
         rec_translate_step!("p2_absent", P2_ABSENT, IDX_UP);
         kani::cover!(true, "c01_recursive_translate_p2_absent_up: reachable");
@@ -1511,7 +1548,7 @@ mod verif_c01_recursive_step {
     //@ obligation C09 C09.recursive_translate.shape_p2_huge.no_access_outside_page_tables tier=thorough bounded="pool of 7 tables (4 path + 3 allocatable); tree-shaped sparse pre-state (target path, one neighbour word per path table, garbage in allocatable frames); recursive index 300; page-table indices (255,511,0,256)"
     #[kani::proof]
     #[kani::stub(crate::structures::paging::page_table::PageTable::zero, zero_stub)]
-    #[kani::stub(crate::addr::VirtAddr::as_mut_ptr, mmu_as_mut_ptr)]
+    #[kani::stub(crate::addr::VirtAddr::as_mut_ptr, mmu_trap_as_mut_ptr)]
     fn c01_recursive_translate_p2_huge_mid() {
         rec_translate_step!("p2_huge", P2_HUGE, IDX_MID);
         kani::cover!(true, "c01_recursive_translate_p2_huge_mid: reachable");
@@ -1524,7 +1561,7 @@ mod verif_c01_recursive_step {
     //@ obligation C09 C09.recursive_translate.shape_p2_huge.no_access_outside_page_tables tier=thorough bounded="pool of 7 tables (4 path + 3 allocatable); tree-shaped sparse pre-state (target path, one neighbour word per path table, garbage in allocatable frames); recursive index 300; page-table indices (256,0,510,511)"
     #[kani::proof]
     #[kani::stub(crate::structures::paging::page_table::PageTable::zero, zero_stub)]
-    #[kani::stub(crate::addr::VirtAddr::as_mut_ptr, mmu_as_mut_ptr)]
+    #[kani::stub(crate::addr::VirtAddr::as_mut_ptr, mmu_trap_as_mut_ptr)]
     fn c01_recursive_translate_p2_huge_up() {
         rec_translate_step!("p2_huge", P2_HUGE, IDX_UP);
         kani::cover!(true, "c01_recursive_translate_p2_huge_up: reachable");
@@ -1537,7 +1574,7 @@ mod verif_c01_recursive_step {
     //@ obligation C09 C09.recursive_translate.shape_p1_absent.no_access_outside_page_tables tier=thorough bounded="pool of 7 tables (4 path + 3 allocatable); tree-shaped sparse pre-state (target path, one neighbour word per path table, garbage in allocatable frames); recursive index 300; page-table indices (255,511,0,256)"
     #[kani::proof]
     #[kani::stub(crate::structures::paging::page_table::PageTable::zero, zero_stub)]
-    #[kani::stub(crate::addr::VirtAddr::as_mut_ptr, mmu_as_mut_ptr)]
+    #[kani::stub(crate::addr::VirtAddr::as_mut_ptr, mmu_trap_as_mut_ptr)]
     fn c01_recursive_translate_p1_absent_mid() {
         rec_translate_step!("p1_absent", P1_ABSENT, IDX_MID);
         kani::cover!(true, "c01_recursive_translate_p1_absent_mid: reachable");
@@ -1550,7 +1587,7 @@ mod verif_c01_recursive_step {
     //@ obligation C09 C09.recursive_translate.shape_p1_absent.no_access_outside_page_tables tier=thorough bounded="pool of 7 tables (4 path + 3 allocatable); tree-shaped sparse pre-state (target path, one neighbour word per path table, garbage in allocatable frames); recursive index 300; page-table indices (256,0,510,511)"
     #[kani::proof]
     #[kani::stub(crate::structures::paging::page_table::PageTable::zero, zero_stub)]
-    #[kani::stub(crate::addr::VirtAddr::as_mut_ptr, mmu_as_mut_ptr)]
+    #[kani::stub(crate::addr::VirtAddr::as_mut_ptr, mmu_trap_as_mut_ptr)]
     fn c01_recursive_translate_p1_absent_up() {
         rec_translate_step!("p1_absent", P1_ABSENT, IDX_UP);
         kani::cover!(true, "c01_recursive_translate_p1_absent_up: reachable");
@@ -1563,7 +1600,7 @@ mod verif_c01_recursive_step {
     //@ obligation C09 C09.recursive_translate.shape_p1_leaf.no_access_outside_page_tables tier=thorough bounded="pool of 7 tables (4 path + 3 allocatable); tree-shaped sparse pre-state (target path, one neighbour word per path table, garbage in allocatable frames); recursive index 300; page-table indices (255,511,0,256)"
     #[kani::proof]
     #[kani::stub(crate::structures::paging::page_table::PageTable::zero, zero_stub)]
-    #[kani::stub(crate::addr::VirtAddr::as_mut_ptr, mmu_as_mut_ptr)]
+    #[kani::stub(crate::addr::VirtAddr::as_mut_ptr, mmu_trap_as_mut_ptr)]
     fn c01_recursive_translate_p1_leaf_mid() {
         rec_translate_step!("p1_leaf", P1_LEAF, IDX_MID);
         kani::cover!(true, "c01_recursive_translate_p1_leaf_mid: reachable");
@@ -1576,7 +1613,7 @@ mod verif_c01_recursive_step {
     //@ obligation C09 C09.recursive_translate.shape_p1_leaf.no_access_outside_page_tables tier=thorough bounded="pool of 7 tables (4 path + 3 allocatable); tree-shaped sparse pre-state (target path, one neighbour word per path table, garbage in allocatable frames); recursive index 300; page-table indices (256,0,510,511)"
     #[kani::proof]
     #[kani::stub(crate::structures::paging::page_table::PageTable::zero, zero_stub)]
-    #[kani::stub(crate::addr::VirtAddr::as_mut_ptr, mmu_as_mut_ptr)]
+    #[kani::stub(crate::addr::VirtAddr::as_mut_ptr, mmu_trap_as_mut_ptr)]
     fn c01_recursive_translate_p1_leaf_up() {
         rec_translate_step!("p1_leaf", P1_LEAF, IDX_UP);
         kani::cover!(true, "c01_recursive_translate_p1_leaf_up: reachable");
